@@ -47,6 +47,17 @@ def run(ctx, chk):
         chk.require(not [bb for bb, _ in oks if bb in cut], "C19/eod-when-idle", name,
                     "the call can succeed with an empty token map without having run end_of_day", "end_of_day on every idle path",
                     f.sp(true_t))
+        # every path from the point where the terminal has completed the reversal exchange to a return
+        # (successful or not) passes the idle test
+        P = completion_point(f, name)
+        if chk.require(P is not None, "C19/completion-point", name, "could not locate where the reversal exchange completes", "",
+                       f.sp(), nontrivial=False):
+            rets = [i for i in f.reach if f.b.blocks[i]["term"]["t"] == "return"]
+            cut = f.reach_from(P, cut_blocks=[tbb])
+            chk.require(not [r for r in rets if r in cut] or tbb == P, "C19/cleanup-on-every-exit", name,
+                        "after the terminal completed the exchange the call can return without the idle test (and hence without "
+                        "clean-up / end-of-day), e.g. through an early error return", "every exit after completion passes the idle test",
+                        f.sp(P))
         # failure of end_of_day is propagated
         prop = [(bb, x) for bb, x in f.ret_writes() if f.classify_ret(x) == "propagate" and
                 any(y[0] == "call" and y[1] == FEIG + "end_of_day" for y in walk(x))]
@@ -133,3 +144,33 @@ def run(ctx, chk):
     chk.require(callers_eod <= allowed and len(callers_eod) >= 3, "C19/who-may-call", "end_of_day",
                 "end_of_day is called from %s, allowed %s" % (sorted(callers_eod), sorted(allowed)), "configure/commit/cancel")
     chk.floor("C19 obligations", len(chk.obligations), 25)
+
+
+def completion_point(f, name):
+    """Block reached when the terminal has completed the reversal exchange: the exit of the reply
+    loop (commit) / the success edge of the `?` on cancel_transaction_by_receipt_no (cancel)."""
+    if name == "commit_transaction":
+        for i in sorted(f.reach):
+            t = f.b.blocks[i]["term"]
+            if t["t"] != "switch":
+                continue
+            v = f.tr.value(t["d"])
+            if v.kind != "rv" or v.rv["r"] != "discr" or not ty_str(v.rv["of"]).startswith("core::option::Option<core::result::Result<"):
+                continue
+            e = f.ex.operand(t["d"])
+            if any(x[0] == "call" and x[1] == NEXT for x in walk(e)):
+                some = dict((val, tb) for val, tb in t["targets"]).get(1)
+                others = [tb for val, tb in t["targets"] if val != 1] + ([t["else"]] if t["else"] != some else [])
+                for o in others:
+                    if f.b.blocks[o]["term"]["t"] != "unreachable":
+                        return o
+        return None
+    for i in sorted(f.reach):
+        t = f.b.blocks[i]["term"]
+        if t["t"] != "switch":
+            continue
+        e = f.ex.operand(t["d"])
+        if e[0] == "discr" and any(x[0] == "call" and x[1] == FEIG + "cancel_transaction_by_receipt_no" for x in walk(e)) and \
+                any(x[0] == "call" and x[1] == "core::ops::try_trait::Try::branch" for x in walk(e)):
+            return dict((val, tb) for val, tb in t["targets"]).get(0)
+    return None
